@@ -919,6 +919,16 @@ class PureInterp:
                             except CantEval:
                                 return self.eval(value, {}, cls.module)
                 raise Raised("AttributeError", "value")
+        if isinstance(o, tuple) and len(o) == 4 and o[0] == "memo" and n.attr in ("cache_info", "cache_clear", "__wrapped__", "cache_parameters"):
+            if n.attr == "__wrapped__":
+                return o[1]
+            if n.attr == "cache_clear":
+                return lambda: o[2].clear()
+            if n.attr == "cache_parameters":
+                return lambda: {"maxsize": o[3], "typed": False}
+            import collections as _c
+            CI = _c.namedtuple("CacheInfo", "hits misses maxsize currsize")
+            return lambda: CI(0, len(o[2]), o[3], len(o[2]))
         if isinstance(o, tuple) and hasattr(o, "_fields") and n.attr in o._fields:
             return getattr(o, n.attr)
         if isinstance(o, tuple) and hasattr(o, "_fields") and n.attr in ("_replace", "_asdict", "_fields"):
